@@ -126,7 +126,68 @@ def snapshotPostOK (f : LTXFile) : Bool :=
   let lock := 1073741824 / f.pageSize + 1
   f.pages.foldl (fun (acc : Chk) p => if p.1 = lock then acc else flag ||| (acc ^^^ pageChk p.1 p.2)) 0 == f.post
 
-def step (s : Eng) (line : String) : Eng × String :=
+/-- result text of a finished background export / snapshot -/
+def bgFinish (s : Eng) (b : BgSt) : String :=
+  if b.snapshot then
+    let hdr : LTXFile := { minTxid := 1, maxTxid := b.capTxid, pre := 0, post := 0, commit := b.capPageN, pageSize := b.capPageSize, pages := [] }
+    if !headerOK hdr then "err" else
+    match bgPages s b with
+    | none => "err"
+    | some pages =>
+      let lock := 1073741824 / b.capPageSize + 1
+      let pgs := (pages.zipIdx.filter fun p => p.2 + 1 ≠ lock).map fun p => (p.2 + 1, p.1)
+      let chk := pgs.foldl (fun (acc : Chk) p => acc ^^^ pageChk p.1 p.2) 0 ||| flag
+      if chk ≠ b.capChk then "err" else "ok " ++ showLTX { hdr with post := chk, pages := pgs } true
+  else
+    if s.dbFile.isNone then "err" else
+    match bgPages s b with
+    | none => "err"
+    | some pages =>
+      let all := pages.foldl (· ++ ·) ByteArray.empty
+      let ps := if all.size < 100 then 0 else (let v := be16 all 16; if v = 1 then 65536 else v)
+      s!"ok pos={b.capTxid}:{hex16 b.capChk} img={if ps = 0 then "0:-" else imageDigest ((List.range (all.size / ps)).map fun i => all.extract (i*ps) ((i+1)*ps)) ps}"
+
+/-- run the background op until it pauses at its hook, blocks on a lock, or finishes -/
+def bgRun (s : Eng) : Nat → Eng × String
+  | 0 => (s, "blocked")
+  | fuel + 1 =>
+    match s.bg with
+    | none => (s, "none")
+    | some b =>
+      if b.paused then (s, "paused") else
+      match (bgSeq b.snapshot b.capWal)[b.pc]? with
+      | none => ({ s with bg := none, locks := s.locks.unlockAll b.idx }, "finished err")
+      | some .capture =>
+        bgRun { s with bg := some { b with pc := b.pc + 1, capTxid := s.posTxid, capChk := s.posChk, capPageSize := s.pageSize,
+                                            capPageN := s.pageN, capOffsets := s.w.frameOffsets } } fuel
+      | some .read =>
+        let res := bgFinish s b
+        ({ s with bg := none, locks := s.locks.unlockAll b.idx }, "finished " ++ res)
+      | some (.lock l req) =>
+        let prev := s.locks.state l
+        let (t, r) := s.locks.call l (if req = 0 then RWMutex.Op.tryRLock else if req = 1 then RWMutex.Op.tryLock else RWMutex.Op.unlock) b.idx
+        let granted := match r with | .bool true => true | .unit => true | _ => false
+        if !granted then (s, "blocked") else
+        let s := { s with locks := t }
+        let next := s.locks.state l
+        if prev != next && b.pauseAt == some (l, prev, next) then
+          ({ s with bg := some { b with pc := b.pc + 1, pauseAt := none, paused := true } }, "paused")
+        else bgRun { s with bg := some { b with pc := b.pc + 1 } } fuel
+
+def parseGS (x : String) : Option GS :=
+  if x == "unlocked" then some .unlocked else if x == "shared" then some .shared else if x == "exclusive" then some .exclusive else none
+
+def bgStart (s : Eng) (kind : String) (rest : List String) : Eng × String :=
+    if !(s.opened && s.hasDB) || s.bg.isSome || s.exit ≠ 0 || !(kind == "export" || kind == "snapshot") then (s, "bad-op") else
+    let pause : Option (LockType × GS × GS) := match rest with
+      | [p] => (match p.splitOn ":" with
+        | [l, a, b] => do let l ← LockType.ofName l; let a ← parseGS a; let b ← parseGS b; pure (l, a, b)
+        | _ => none)
+      | _ => none
+    let (t, i) := s.locks.add 0 true
+    bgRun { s with locks := t, bgResult := "", bg := some { snapshot := kind == "snapshot", idx := i, pauseAt := pause, capWal := s.walMode } } 64
+
+def step1 (s : Eng) (line : String) : Eng × String :=
   let f := words line
   match f with
   | ["case", id] => ({}, s!"case {id}")
@@ -178,6 +239,7 @@ def step (s : Eng) (line : String) : Eng × String :=
         | .ok s' => (s', "ok")
         | .error (s', r) => (s', showRes r)
       | _, _ => (s, "bad-op")
+    | "bg-start" => bgStart s owner [ls]
     | "plant" =>
       if !(s.opened && s.hasDB) then (s, "bad-op") else
       (match bytesOf ls with
@@ -253,6 +315,15 @@ def step (s : Eng) (line : String) : Eng × String :=
   | ["locks"] =>
     if !(s.opened && s.hasDB) then (s, "bad-op") else
     (s, " ".intercalate (LockType.all.map fun l => s!"{l.name.toLower}={(s.locks.state l).toString}"))
+  | "bg-start" :: kind :: rest => bgStart s kind rest
+  | ["bg-resume"] =>
+    (match s.bg with
+     | none => (s, "bad-op")
+     | some b => bgRun { s with bg := some { b with paused := false } } 64)
+  | ["bg-result"] =>
+    (match s.bg with
+     | some _ => bgRun s 64
+     | none => if s.bgResult != "" then ({ s with bgResult := "" }, s.bgResult) else (s, "none"))
   | ["demote"] => if !s.opened then (s, "bad-op") else ({ s with primary := false }, "ok")
   | ["whold"] =>
     if !(s.opened && s.hasDB) || s.held.isSome then (s, "bad-op") else
@@ -327,5 +398,21 @@ def step (s : Eng) (line : String) : Eng × String :=
        let s := if s.hasDB then s else { s with hasDB := true, dbFile := some ByteArray.empty }
        run s (importDB s data))
   | _ => (s, "bad-op")
+
+end LiteFSVerif.Driver.EngineD
+
+namespace LiteFSVerif.Driver.EngineD
+open LiteFSVerif LiteFSVerif.Engine
+
+/-- one op line; afterwards a background op that was blocked on a lock gets to run -/
+def step (s : Eng) (line : String) : Eng × String :=
+  let (s, o) := step1 s line
+  if line.startsWith "bg-" || line.startsWith "case " then (s, o) else
+  match s.bg with
+  | some b =>
+    if b.paused then (s, o) else
+    let (s', st) := bgRun s 64
+    (if st.startsWith "finished" then { s' with bgResult := st } else s', o)
+  | none => (s, o)
 
 end LiteFSVerif.Driver.EngineD
